@@ -13,7 +13,14 @@ use crate::run::StratSpec;
 fn same_class(r: &Replay, cand: &Replay, n: &mut u64) -> Option<(Vec<u32>, u64, String)> {
     *n += 1;
     let eo = eval_subprocess(cand, &format!("s{}", n))?;
-    let v = eo.violations.iter().find(|v| v.prop == r.property && v.class == r.class)?;
+    // a record that is not a listed known finding must not shrink into one (same class, another
+    // cause): the smaller candidate has to stay on the unlisted side
+    let kfs = crate::driver::known_findings();
+    let was_known = crate::driver::match_known(&kfs, &r.property, &r.class, &r.msg).is_some();
+    let v = eo
+        .violations
+        .iter()
+        .find(|v| v.prop == r.property && v.class == r.class && crate::driver::match_known(&kfs, &v.prop, &v.class, &v.msg).is_some() == was_known)?;
     Some((eo.trace, eo.digest, v.msg.clone()))
 }
 
